@@ -114,14 +114,14 @@ class Grid(np.ndarray):
 
     # For pickling
     def __reduce__(self):
-        state = super(Modes, self).__reduce__()
+        state = super(Grid, self).__reduce__()
         new_attributes = state[2] + (self._metadata,)
         return (state[0], state[1], new_attributes)
 
     # For unpickling
     def __setstate__(self, state):
         self._metadata = copy.deepcopy(state[-1])
-        super(Modes, self).__setstate__(state[:-1])
+        super(Grid, self).__setstate__(state[:-1])
 
     @property
     def ndarray(self):
